@@ -961,6 +961,93 @@ pub fn gen_elem_sweep(seed: u64) -> Generated {
     Generated { spec: RunSpec { build_on_thread: vec![false], slots: vec![cfg], threads: vec![ThreadSpec { ops, crash_on_fault: false }], sched: Sched::Serial { order: vec![0] }, stall: None, ballast: 0 }, faults }
 }
 
+/// Thread-affinity scenario (C17): interpolators are Send - built on one thread, queried on it,
+/// handed to another thread and dropped there, while that thread's own interpolators live on and
+/// new ones are built. Every client builds PRIVATE interpolators of the run's slot configurations
+/// (`PrivBuild`), queries them (`PrivQuery`: must answer like a fresh instance), sends them away
+/// (`PrivSend`) and drops what others sent (`PrivReap`); the shared slots are queried as usual.
+pub fn gen_migration(seed: u64) -> Generated {
+    let mut r = Rng::new(seed);
+    let r = &mut r;
+    let mut faults = Faults::draw(r, Mode::C17);
+    faults.reenter = false;
+    faults.elem_panic = false;
+    faults.strat_panic = false;
+    faults.badbuf = false;
+    faults.mismatch = false;
+    let n_slots = r.range(2, 3);
+    let mut slots: Vec<SlotCfg> = vec![];
+    for _ in 0..n_slots {
+        let s = if !slots.is_empty() && r.chance(1, 3) {
+            let base = slots[r.below(slots.len())].clone();
+            mutate_slot(r, base)
+        } else {
+            loop {
+                let c = gen_slot(r, Mode::C17);
+                // built-in strategies over plain f64 data: the scenario is about where instances live
+                if !c.kind.is_probe() && c.elem == Elem::F64 {
+                    break c;
+                }
+            }
+        };
+        slots.push(s);
+    }
+    let ctxs: Vec<SlotCtx> = slots.iter().map(|c| slot_ctx(r, c, &faults, Mode::C17)).collect();
+    let n_threads = r.range(2, 4);
+    let plain = |r: &mut Rng, slot: usize| -> Call {
+        let sc = &ctxs[slot];
+        let x = Fb(*r.pick(&sc.keys_x));
+        let y = if sc.two { Fb(*r.pick(&sc.keys_y)) } else { Fb(0.0) };
+        match r.weighted(&[3, 2, 1]) {
+            0 => Call::Interp { x, y },
+            1 => {
+                let n = r.range(1, 3);
+                Call::Array { q: QSpec { ty: QTy::Q1, shape: vec![n], xs: (0..n).map(|_| Fb(*r.pick(&sc.keys_x))).collect(), ys: if sc.two { (0..n).map(|_| Fb(*r.pick(&sc.keys_y))).collect() } else { vec![] }, ys_shape: None, lay: Lay::C, ys_lay: Lay::C } }
+            }
+            _ => Call::IndexLeftOf { x, y },
+        }
+    };
+    let mk = |slot: usize, call: Call| Op { slot, call, plan: vec![], yield_mask: 0, check_acc: false, elem_fault: 0 };
+    let threads: Vec<ThreadSpec> = (0..n_threads)
+        .map(|_| {
+            // `held`: the slot configurations of the private interpolators this client has at that
+            // point of its own sequence (queries go to configurations it actually holds)
+            let first = r.below(n_slots);
+            let mut held = vec![first];
+            let mut ops = vec![mk(first, Call::PrivBuild)];
+            for _ in 0..r.range(8, 22) {
+                let mut slot = r.below(n_slots);
+                let call = match r.weighted(&[3, 9, 2, 3, 2]) {
+                    0 => {
+                        held.push(slot);
+                        Call::PrivBuild
+                    }
+                    1 if !held.is_empty() => {
+                        slot = *r.pick(&held);
+                        Call::PrivQuery { inner: Box::new(plain(r, slot)) }
+                    }
+                    1 => {
+                        held.push(slot);
+                        Call::PrivBuild
+                    }
+                    2 => {
+                        held.pop();
+                        Call::PrivSend
+                    }
+                    3 => Call::PrivReap,
+                    _ => plain(r, slot),
+                };
+                ops.push(mk(slot, call));
+            }
+            ThreadSpec { ops, crash_on_fault: false }
+        })
+        .collect();
+    let horizon: usize = threads.iter().map(|t| t.ops.len() * 2 + 1).sum();
+    let sched = gen_sched(r, n_threads, horizon);
+    let build_on_thread = (0..n_slots).map(|_| r.chance(1, 2)).collect();
+    Generated { spec: RunSpec { build_on_thread, slots, threads, sched, stall: None, ballast: 0 }, faults }
+}
+
 /// one complete run specification from one seed
 pub fn gen_run(seed: u64, mode: Mode) -> Generated {
     gen_run_inner(seed, mode)
